@@ -155,6 +155,13 @@ func (v *V) ValidSwagger() map[string]any {
 	v.RespNames = v.distinctNames("respname", 3)
 	doc := map[string]any{"swagger": "2.0"}
 	doc["info"] = v.instance("info", 1, "")
+	recursiveDef := "" // a definition made recursive by construction: shared parameters and responses like to point straight at it
+	pickDef := func(label string) string {
+		if recursiveDef != "" && Pct(v.T, label+"?recursive", 60) {
+			return recursiveDef
+		}
+		return v.DefNames[Uniform(v.T, label, len(v.DefNames))]
+	}
 	// referable elements first: parameters and responses in the global sections are full objects (no $ref to $ref chains that could be unfounded)
 	if len(v.DefNames) > 0 {
 		defs := map[string]any{}
@@ -164,6 +171,7 @@ func (v *V) ValidSwagger() map[string]any {
 		// recursive definitions are common in real documents: make some by construction
 		if Pct(v.T, "recursive", 35) {
 			n0 := v.DefNames[Uniform(v.T, "recdef", len(v.DefNames))]
+			recursiveDef = n0
 			if d0, ok := defs[n0].(map[string]any); ok {
 				if _, isRef := d0["$ref"]; !isRef {
 					props, _ := d0["properties"].(map[string]any)
@@ -186,7 +194,7 @@ func (v *V) ValidSwagger() map[string]any {
 			ps[n] = v.instanceFl("parameter", fls[Uniform(v.T, "gparamfl", len(fls))], 1, "")
 			// a body parameter whose schema is directly a $ref to a definition
 			if len(v.DefNames) > 0 && Pct(v.T, "bodyref", 25) {
-				ps[n] = map[string]any{"name": "body", "in": "body", "schema": map[string]any{"$ref": "#/definitions/" + fragEscape(v.DefNames[Uniform(v.T, "bodyrefdef", len(v.DefNames))])}}
+				ps[n] = map[string]any{"name": "body", "in": "body", "schema": map[string]any{"$ref": "#/definitions/" + fragEscape(pickDef("bodyrefdef"))}}
 			}
 		}
 		doc["parameters"] = ps
@@ -195,6 +203,10 @@ func (v *V) ValidSwagger() map[string]any {
 		rs := map[string]any{}
 		for _, n := range savedR {
 			rs[n] = v.instanceFl("response", "", 1, "")
+			// a response whose schema is directly a $ref to a definition
+			if len(v.DefNames) > 0 && Pct(v.T, "respref", 25) {
+				rs[n] = map[string]any{"description": []string{"", "d"}[Uniform(v.T, "resprefdesc", 2)], "schema": map[string]any{"$ref": "#/definitions/" + fragEscape(pickDef("resprefdef"))}}
+			}
 		}
 		doc["responses"] = rs
 	}
